@@ -38,6 +38,7 @@ const (
 	dShutdownX
 	dMode
 	dRelease
+	dFlushLive
 )
 
 type dop struct{ kind, arg int }
@@ -59,6 +60,9 @@ func (o dop) coq() string {
 		return "DShutdownX"
 	case dMode:
 		return "DMode " + m[o.arg]
+	}
+	if o.kind == dFlushLive {
+		return "DFlushLive " + m[o.arg]
 	}
 	return "DRelease " + m[o.arg]
 }
@@ -264,6 +268,29 @@ func (s *sim) release(m int) {
 	s.settle()
 }
 
+// flushLive: ForceFlush with a live context while the exporter is blocked; returns the
+// Done() count at which the call waits (there the harness releases the gate into mode m).
+// Only generated where the hand-over succeeds (queue empty or room in the buffer).
+func (s *sim) flushLive(m int) int {
+	if s.stopped {
+		return 0
+	}
+	s.handover(s.ring)
+	s.settle()
+	k := 1
+	if s.room() {
+		s.input = append(s.input, item{sync: true})
+		s.settle()
+		k = 2
+	}
+	s.release(m)
+	if k == 1 {
+		s.input = append(s.input, item{sync: true})
+		s.settle()
+	}
+	return k
+}
+
 func (s *sim) blocked() bool { return s.mode == modeBlock && s.ex == xOpen }
 
 // apply runs op on the predictor; the result is the Done() count of a scripted call.
@@ -284,6 +311,8 @@ func (s *sim) apply(o dop) int {
 		s.settle()
 	case dRelease:
 		s.release(o.arg)
+	case dFlushLive:
+		return s.flushLive(o.arg)
 	}
 	if s.blocked() {
 		s.blockedOnce = true
@@ -303,7 +332,12 @@ func next(s *sim, r *vgen.Rand) []dop {
 				return []dop{{kind: dEmit}, {kind: dProbe}}
 			}
 			return []dop{{kind: dEmit}}
+		case x < 64:
+			return []dop{{kind: dProbe}}
 		case x < 70:
+			if !s.stopped && !s.dirty && (s.ring == 0 || s.room()) {
+				return []dop{{dFlushLive, r.Intn(2)}}
+			}
 			return []dop{{kind: dProbe}}
 		case x < 74:
 			return []dop{{dMutate, r.Range(0, nMut)}}
@@ -360,13 +394,13 @@ func next(s *sim, r *vgen.Rand) []dop {
 }
 
 type detResult struct {
-	c      cfg
-	prog   []dop
-	evs    []event
-	stuck  string // a call did not return / runaway: observed directly
-	how    string // spelling of the options, entry points used
-	unmet  string // the gate did not see what the predictor expected: the recorded history is judged by Coq
-	sim    *sim
+	c     cfg
+	prog  []dop
+	evs   []event
+	stuck string // a call did not return / runaway: observed directly
+	how   string // spelling of the options, entry points used
+	unmet string // the gate did not see what the predictor expected: the recorded history is judged by Coq
+	sim   *sim
 }
 
 // expectWD is how long the driver waits for the exporter events the predictor expects.
@@ -396,10 +430,13 @@ func parseProg(txt string) (cfg, []dop) {
 			p = append(p, dop{kind: dShutdown})
 		case 'x':
 			p = append(p, dop{kind: dShutdownX})
-		case 'M', 'R':
+		case 'M', 'R', 'L':
 			k := dMode
 			if w[0] == 'R' {
 				k = dRelease
+			}
+			if w[0] == 'L' {
+				k = dFlushLive
 			}
 			p = append(p, dop{k, strings.IndexByte("OEB", w[1])})
 		}
@@ -485,6 +522,7 @@ func runProg(r *vgen.Rand, fixed []dop, fc cfg) detResult {
 					rg.shutdown(0, ctx)
 				}
 				close(done)
+				ctx.wake()
 			}()
 			if k > 0 {
 				if !waitDone(ctx, k, done) {
@@ -495,8 +533,33 @@ func runProg(r *vgen.Rand, fixed []dop, fc cfg) detResult {
 			}
 			select {
 			case <-done:
+			case <-time.After(expectWD):
+				// predicted to return by itself (or after the cancel): it waits somewhere
+				// else, i.e. the implementation is not in the state the predictor assumes
+				expectWD = 2 * time.Second
+				res.unmet = "scripted call did not return where the predictor expected (" + o.coq() + ")"
+				ctx.cancel()
+				select {
+				case <-done:
+				case <-time.After(watchdog):
+					res.stuck = "scripted call did not return after its context was cancelled"
+					return false
+				}
+			}
+		case dFlushLive:
+			ctx := newSctx()
+			ctx.live = true
+			done := make(chan struct{})
+			go func() { rg.flush(0, ctx); close(done); ctx.wake() }()
+			if k > 0 && !waitDone(ctx, k, done) {
+				res.stuck = fmt.Sprintf("ForceFlush(live context) did not reach its wait point %d", k)
+				return false
+			}
+			rg.g.unblock(o.arg) // a call that returned early is judged on the history
+			select {
+			case <-done:
 			case <-time.After(watchdog):
-				res.stuck = "scripted call did not return after its context was cancelled"
+				res.stuck = "ForceFlush(live context) did not return after the exporter was released"
 				return false
 			}
 		case dMode:
@@ -596,48 +659,68 @@ func waitDone(c *sctx, k int, done chan struct{}) bool {
 	return true
 }
 
+// corpus: run first on every run.  "ForceFlush behind a blocked export": the exporter is
+// inside Export, one batch sits in the export buffer, the queue is (exactly) drained, a
+// ForceFlush with a live context must not return before that batch was handed over.
+var corpus = []string{
+	"4,2,1: MB e e e p LO s", "4,2,2: MB e e e p LO s", "4,2,3: MB e e e p LO s",
+	"3,1,1: MB e e p LO s", "3,1,2: MB e e p LO s", "3,1,3: MB e e p e p LO s",
+	"8,4,2: MB e e e e e e e p LO e f s", "8,4,3: MB e e e e e e p e e p LO s",
+	"6,3,2: MB e e e e e p LO e e e f s", "4,2,3: MB e e e p e LO s", "5,5,3: MB e e e e e e e p LO s",
+	"4,2,2: MB e e e x s f RO", // F-C06-1
+}
+
 func runDet(w *vgen.Writer, r *vgen.Rand, n int) {
-	for i := 0; i < n && stuckScenarios.Load() < 2 && unmetScenarios.Load() < 8; i++ {
-		res := genAndRun(r.Fork())
-		ps := make([]string, len(res.prog))
-		for j, o := range res.prog {
-			ps[j] = o.coq()
-		}
-		desc := map[string]any{"cfg": coqCfg(res.c), "how": res.how, "prog": ps, "history": descHistory(res.evs)}
-		if len(res.evs) > 300 {
-			desc["history"] = descHistory(res.evs[len(res.evs)-300:])
-			desc["prog"] = ps[max(0, len(ps)-60):]
-		}
-		if res.stuck != "" {
-			stuckScenarios.Add(1)
-			if len(res.evs) > 400 {
-				desc["history"] = descHistory(res.evs[:400])
-			}
-			w.Violation(strings.TrimPrefix("Stuck: "+res.stuck, "Stuck: panic: "), desc)
-			continue
-		}
-		if res.unmet != "" {
-			unmetScenarios.Add(1)
-			desc["unmet_expectation"] = res.unmet
-			w.Tally("det.unmet_expectation")
-		}
-		term := "CDet " + coqCfg(res.c) + " [" + strings.Join(ps, "; ") + "] " + coqHistory(res.evs)
-		s := res.sim
-		w.Add(term, desc, "det", s.begins > 0 && (s.blockedOnce || s.overflowed))
-		w.Tally(fmt.Sprintf("det.qcap=%d", res.c.qcap))
-		w.Tally(fmt.Sprintf("det.maxb=%d", res.c.maxb))
-		if s.overflowed {
-			w.Tally("det.overflow")
-		}
-		if s.blockedOnce {
-			w.Tally("det.blocked")
-		}
-		if res.c.maxb == res.c.qcap {
-			w.Tally("det.batch=queue")
-		}
-		if res.c.qcap == dfltQ {
-			w.Tally("det.all_defaults")
-		}
-		w.Tally("det." + res.how[strings.Index(res.how, "provider="):])
+	for _, txt := range corpus {
+		c, p := parseProg(txt)
+		res := runProg(r.Fork(), p, c)
+		res.how += " corpus"
+		addDet(w, res)
 	}
+	for i := 0; i < n && stuckScenarios.Load() < 2 && unmetScenarios.Load() < 8; i++ {
+		addDet(w, genAndRun(r.Fork()))
+	}
+}
+
+func addDet(w *vgen.Writer, res detResult) {
+	ps := make([]string, len(res.prog))
+	for j, o := range res.prog {
+		ps[j] = o.coq()
+	}
+	desc := map[string]any{"cfg": coqCfg(res.c), "how": res.how, "prog": ps, "history": descHistory(res.evs)}
+	if len(res.evs) > 300 {
+		desc["history"] = descHistory(res.evs[len(res.evs)-300:])
+		desc["prog"] = ps[max(0, len(ps)-60):]
+	}
+	if res.stuck != "" {
+		stuckScenarios.Add(1)
+		if len(res.evs) > 400 {
+			desc["history"] = descHistory(res.evs[:400])
+		}
+		w.Violation(strings.TrimPrefix("Stuck: "+res.stuck, "Stuck: panic: "), desc)
+		return
+	}
+	if res.unmet != "" {
+		unmetScenarios.Add(1)
+		desc["unmet_expectation"] = res.unmet
+		w.Tally("det.unmet_expectation")
+	}
+	term := "CDet " + coqCfg(res.c) + " [" + strings.Join(ps, "; ") + "] " + coqHistory(res.evs)
+	s := res.sim
+	w.Add(term, desc, "det", s.begins > 0 && (s.blockedOnce || s.overflowed))
+	w.Tally(fmt.Sprintf("det.qcap=%d", res.c.qcap))
+	w.Tally(fmt.Sprintf("det.maxb=%d", res.c.maxb))
+	if s.overflowed {
+		w.Tally("det.overflow")
+	}
+	if s.blockedOnce {
+		w.Tally("det.blocked")
+	}
+	if res.c.maxb == res.c.qcap {
+		w.Tally("det.batch=queue")
+	}
+	if res.c.qcap == dfltQ {
+		w.Tally("det.all_defaults")
+	}
+	w.Tally("det." + res.how[strings.Index(res.how, "provider="):])
 }
